@@ -182,15 +182,16 @@ def used_names(srcs):
     return used
 
 
-# pinned hand-modelled functions: sha256 of ast.dump (comments/formatting do not matter)
+# pinned hand-modelled functions: sha256 of ast.dump under Python 3.12 (comments/formatting do not matter).
+# A change means coq/xfrm/XfrmModel.v / Params.v must be re-validated and the digest updated.
 PINNED = {
-    ('netlink.py', 'NetlinkStructure.parse'): None,
-    ('netlink.py', 'NetlinkProtocol._parse_attributes'): None,
-    ('netlink.py', 'NetlinkProtocol.parse_message'): None,
-    ('netlink.py', 'NetlinkProtocol.send_recv'): None,
-    ('xfrm.py', 'XfrmAddress.from_ipaddr'): None,
-    ('xfrm.py', 'XfrmAddress.to_ipaddr'): None,
-    ('xfrm.py', 'create_byte_array'): None,
+    ('netlink.py', 'NetlinkStructure.parse'): '97ec81434c522210',
+    ('netlink.py', 'NetlinkProtocol._parse_attributes'): '18b9421bf7dea4a7',
+    ('netlink.py', 'NetlinkProtocol.parse_message'): '69f585a282d9ed9f',
+    ('netlink.py', 'NetlinkProtocol.send_recv'): '550a56c2950ac455',
+    ('xfrm.py', 'XfrmAddress.from_ipaddr'): '6f0a3133d46ee643',
+    ('xfrm.py', 'XfrmAddress.to_ipaddr'): 'b44bcae402d852c2',
+    ('xfrm.py', 'create_byte_array'): 'e850271fb56d02b9',
 }
 
 
@@ -2013,7 +2014,7 @@ def correspond(ctx):
     bad = core.run_cases(ctx, CLUSTER, 'From Xfrm Require Import XfrmRun.', 'run_call', cases[:nfull], shard=40,
                          name='requests')
     fpcases = [(i, [[fingerprint(b) for b in e[0]], e[1]]) for i, e in cases]
-    badfp = core.run_cases(ctx, CLUSTER, 'From Xfrm Require Import XfrmRun.', 'run_call_fp', fpcases, shard=250,
+    badfp = core.run_cases(ctx, CLUSTER, 'From Xfrm Require Import XfrmRun.', 'run_call_fp', fpcases, shard=130,
                            name='requests_fp')
     bad = bad + [(gi, out) for gi, out in badfp if gi not in dict(bad)]
     for gi, model_out in bad[:5]:
@@ -2399,7 +2400,41 @@ def replay(ctx, obj):
 CHECK = core.Check(
     'C14', CLUSTER, 'Props/C14.v', translate=translate, correspond=correspond, oracle=oracle, replay=replay,
     deps=('lib',),
-    rule='TODO',
-    trusted_base=['Coq 8.16.1 kernel (coqc, vm_compute; no native_compute)'],
-    assumptions=[],
+    rule='layouts: every struct/union of <linux/xfrm.h>+<linux/netlink.h> vs gcc offsetof/sizeof and every ctypes '
+         'class vs its field descriptors (complete); requests: stratified generator over the real builders '
+         '(create_sa/create_policy/delete_sa/flush_*/create_child_sa/delete_child_sa): IPv4/IPv6 networks and '
+         'addresses (extremes and random, rarely mixed families), ports {0,1,22,255,256,65535,random}, protocols, '
+         'ESP/AH/other, modes, every algorithm/key-size pair plus over-long names/keys, lifetimes {-1,0,1,random,'
+         '2^64-11,negative}, SPIs of 4 (rarely 0/3/5) bytes, indices up to 2^34, ack/error/multipart/empty replies; '
+         'events: ACQUIRE/EXPIRE encoded from gcc offsets with the template first / after aligned / after unaligned '
+         'attributes / duplicated / absent, truncated and bad-length variants, other message types; replies: ack, '
+         'negative and positive errors, multipart with and without DONE, short datagrams; every case is '
+         'non-trivial (distinct by content hash)',
+    trusted_base=['Coq 8.16.1 kernel (coqc, vm_compute; no native_compute)',
+                  'py/props/c14.py translators: ctypes _fields_/constants -> Gen/XfrmLayout.v; request builders and '
+                  'call sites -> Gen/XfrmBuild.v; preprocessed UAPI headers -> Gen/KernelUapi.v (struct layout numbers '
+                  'and constants are compared with gcc on every run; the __be16/__be32 typedef names are taken as the '
+                  'byte order of a member)',
+                  'gcc + the installed <linux/xfrm.h>, <linux/netlink.h> (x86-64 LP64 ABI) as the kernel ABI',
+                  'socket module constants AF_INET/AF_INET6/IPPROTO_ESP/IPPROTO_AH of the platform',
+                  'hand model coq/xfrm/XfrmModel.v of send_recv/_attribute_factory/parse_message/_parse_attributes/'
+                  'NetlinkStructure.parse/to_ipaddr and Params.addr_words (from_ipaddr): pinned by AST digest and '
+                  'tied by the correspondence runs',
+                  'kernel-side decoders coq/xfrm/KernelSpec.v (framing, strict nla_parse, xfrm_algo rules) and '
+                  'Intent.v written by hand from the header comments and net/xfrm/xfrm_user.c',
+                  'correspondence harness (recorder replacing NetlinkProtocol._get_socket; time.time, os.getpid, '
+                  'random.randint patched); bulk comparison of sent bytes by length + two 61-bit polynomial '
+                  'fingerprints, byte-for-byte on the first 120 cases of a run'],
+    assumptions=['whether the running kernel accepts a request is not modelled (no kernel in the sandbox)',
+                 'C14_newsa/C14_delsa/C14_flush are proved for all parameter values inside wf_sa / wf_ip / wf32 '
+                 '(one address family per selector pair and per endpoint pair, 4-byte SPI, names < 64 bytes without '
+                 'NUL, keys <= 64 bytes, -1 <= lifetime < 2^64-10, seq and pid below 2^32)',
+                 'NEWPOLICY, events and replies are not proved: they are covered by the correspondence with the model '
+                 'and by the gcc-offset oracle on the real code only',
+                 'a reply whose header announces length 0 makes send_recv spin forever (the model says Diverged); '
+                 'the kernel never sends one, such replies are generated for the model only',
+                 '_parse_attributes advances by the unaligned nla_len: a template that follows an attribute of '
+                 'unaligned length is not found (the kernel emits XFRMA_TMPL first); modelled as is',
+                 'dport_mask/sport_mask are host-order in the ctypes mirror and __be16 in the header: immaterial for '
+                 'the values 0/0xFFFF (C14_mask_order_free), excluded from the byte-order comparison explicitly'],
 )
